@@ -70,11 +70,11 @@ def run(ctx):
             continue
         all_evs += len(validate(ctx, out, pkg))
     # the jump back from a trampoline as fixOriginFuncToTrampoline really lays it out behind the copied prologue: relocations of
-    # real functions (and of TLC-enumerated prologue streams), judged by Trace_Reloc's TailOk only (the rest is C03's business)
+    # real functions (and of TLC-enumerated prologue streams), judged by Trace_Reloc for the jump back (TailOk) and for the displacement of every relative form goom re-emits (the rest is C03's business)
     from checks import c03
     rb = ctx.build_test("internal/patch", ["reloc"], name="reloc")
-    c03.reloc(ctx, rb, {"VERIF_SAMPLE": "2000" if q else "200000", "VERIF_NDIST": "1" if q else "2"}, "trampoline tails, driver binary", only=("V:tail-jump",))
-    c03.streams(ctx, rb, only=("V:tail-jump",))
+    c03.reloc(ctx, rb, {"VERIF_SAMPLE": "2000" if q else "200000", "VERIF_NDIST": "1" if q else "2"}, "trampoline tails, driver binary", only=("V:tail-jump", "V:displacement"))
+    c03.streams(ctx, rb, only=("V:tail-jump", "V:displacement"))
     ctx.cov["distinct_nontrivial"] = all_evs
     ctx.cov["exhaustive"] = not q
     ctx.cov["rule"] = ("each 16-bit lane of the destination swept (stride %s) with the other lanes at boundary patterns, (from,to) "
